@@ -38,7 +38,7 @@ def _input_atoms(x, depth=0):
             out |= _input_atoms(v, depth + 1)
     elif hasattr(x, "key") and not isinstance(x, (Obj, Dct, FuncV)):
         for a in atoms_of(x):
-            if isinstance(a, Sym) and a.tags and not ({"attr", "loopvar", "loopcarried", "draw"} & set(a.tags)):
+            if isinstance(a, Sym) and a.tags and not ({"attr", "attr_scalar", "loopvar", "loopcarried", "draw"} & set(a.tags)):
                 out.add(a)
     return out
 
@@ -220,6 +220,12 @@ def memo_unsound(e):
 
 
 def mutation_findings(o, strict=True, db=None):
+    # findings ABOUT a library call (a key built with tobytes(), id(), ...) name it on purpose: the report's safety net for value mismatches
+    # that merely pass through an uninterpreted `ext:` application does not apply to them
+    return [(k, m.replace("ext:", "lib:"), e) for k, m, e in _mutation_findings(o, strict, db)]
+
+
+def _mutation_findings(o, strict=True, db=None):
     out = []
     for e in o.events:
         if e["kind"] == "inplace" and e["root"] is not None:
